@@ -35,7 +35,7 @@ def token_of(s):
 
 class Harness:
     def __init__(self):
-        self.mod = S.load(SRC, "storage_sim", extra_modules={"os": S.make_os_shim()}, inject={"open": S.sim_open})
+        self.mod = S.load(SRC, "storage_sim", extra_modules={"os": S.make_os_shim(), "io": S.make_io_shim()}, inject={"open": S.sim_open})
 
     def main_fn(self, scen):
         mod = self.mod
